@@ -82,12 +82,48 @@ static std::vector<std::size_t> cut(std::size_t total, int k)
 	return r;
 }
 
+
 struct api_scope2
 {
 	explicit api_scope2(World& w) : m_w(w) { ++m_w.api_depth; }
 	~api_scope2() { --m_w.api_depth; }
 	World& m_w;
 };
+
+void World::read_loop(std::string const& sock, std::string const& h, std::size_t cap)
+{
+	auto it = net->tcp.find(sock);
+	if (it == net->tcp.end() || !it->second) return;
+	auto data = std::make_shared<std::vector<std::uint8_t>>(cap);
+	api_scope2 g(*this);
+	it->second->async_read_some(boost::asio::mutable_buffer(data->data(), cap)
+		, [this, sock, h, cap, data](error_code const& e, std::size_t n)
+	{
+		// the ops of context h run once, when the loop ends
+		on_handler(h, e, "n=" + std::to_string(n) + " " + data_desc(data->data(), std::min(n, data->size())), bool(e));
+		if (!e) read_loop(sock, h, cap);
+	});
+}
+
+void World::write_loop(std::string const& sock, std::string const& h, int stream, std::uint64_t total, std::size_t chunk)
+{
+	auto it = net->tcp.find(sock);
+	if (it == net->tcp.end() || !it->second) return;
+	std::string const key = sock + "/" + std::to_string(stream);
+	std::uint64_t const off = net->wr_off[key];
+	std::size_t const len = std::size_t(std::min<std::uint64_t>(chunk, total - std::min(total, off)));
+	auto data = std::make_shared<std::vector<std::uint8_t>>(len);
+	for (std::size_t i = 0; i < len; ++i) (*data)[i] = stream_byte(stream, off + i);
+	api_scope2 g(*this);
+	it->second->async_write_some(boost::asio::const_buffer(data->data(), len)
+		, [this, sock, h, stream, total, chunk, data, key, off](error_code const& e, std::size_t n)
+	{
+		if (net) net->wr_off[key] += n;
+		bool const done = e || (net && net->wr_off[key] >= total);
+		on_handler(h, e, "n=" + std::to_string(n) + " stream=" + std::to_string(stream) + " off=" + std::to_string(off), done);
+		if (!done) write_loop(sock, h, stream, total, chunk);
+	});
+}
 
 bool World::op_net(std::string const& ctx, toks const& op)
 {
@@ -176,6 +212,25 @@ bool World::op_net(std::string const& ctx, toks const& op)
 		else if (m == "wait_read")
 		{
 			{ api_scope2 g(*this); s.async_wait(ip::tcp::socket::wait_read, make_h(op.at(1))); }
+			res("-");
+		}
+		else if (m == "send")
+		{
+			// boost::asio::async_write (composed: async_write_some until everything is written)
+			std::string h = op.at(1);
+			auto data = std::make_shared<std::vector<std::uint8_t>>(unhex(kv(op, "data", "-")));
+			{
+				api_scope2 g(*this);
+				boost::asio::async_write(s, boost::asio::buffer(data->data(), data->size())
+					, [this, h, data](error_code const& e, std::size_t n)
+				{ on_handler(h, e, "n=" + std::to_string(n)); });
+			}
+			res("-");
+		}
+		else if (m == "read_loop") { read_loop(name, op.at(1), std::size_t(kvi(op, "cap", 4096))); res("-"); }
+		else if (m == "write_loop")
+		{
+			write_loop(name, op.at(1), int(kvi(op, "stream", 0)), std::uint64_t(kvi(op, "total", 1)), std::size_t(kvi(op, "chunk", 1000)));
 			res("-");
 		}
 		else if (m == "read_nb")
